@@ -196,6 +196,6 @@ def shrink_candidates(case):
             yield dict(case, cmds=cmds[:i] + [['add', dict(c[1], rel=None)]] + cmds[i + 1:])
 
 
-LEVEL_TEXT = 'see DESIGN.md C03'
-LEVEL_NOTE = 'see DESIGN.md section 9'
+LEVEL_TEXT = 'Coq theorems: (1) generic memo theory — a memo table emptied at every mutation of an input only ever returns the current value, so the answer to a query is independent of earlier queries (and a two-step witness that it fails without invalidation); (2) the functional history interpreter over the Core model answers every observation as a function of the mutations only. The correspondence run replays random histories of mutations and observations against the library and compares each answer with a fresh replay in which all earlier observations are erased.'
+LEVEL_NOTE = 'Trusted: Coq kernel, Core model + history interpreter tied by correspondence (listing and duration observations); acquisition indices, Stim text, copies and plots are judged by the erased-history comparison only. Known finding F17 (growth of a nested block after listing). No axioms.'
 TECHNIQUE = 'Coq proof (memo coherence + functional history interpreter) + history correspondence evaluated by vm_compute'
